@@ -80,11 +80,28 @@ def modelOut (c : Case) : Json :=
 
 /-! ### judge: the property on the implementation's two parses -/
 
-def judge (o : Json) : Bool × String :=
+def pySpace (c : Char) : Bool := Generated.LinesCfg.pySpace.contains c.toNat
+
+/-- a physical line ending in a backslash followed by whitespace only (what the known finding is about) -/
+def hidesBackslash (l : List Char) : Bool :=
+  let hid (r : List Char) : Bool :=          -- r: the line reversed
+    let s := r.dropWhile pySpace
+    s.length < r.length && s.head? == some '\\'
+  -- "x \ " ; or "x \ \" (as the last line of a file its final backslashes are dropped first)
+  hid l.reverse || hid (l.reverse.dropWhile (· == '\\'))
+
+def physLines (t : List Char) : List (List Char) :=
+  (t.splitOn '\n').flatMap (·.splitOn '\r')
+
+def judge (c : Case) (o : Json) : Bool × String :=
   match jStrField? o "cfg" with
   | some "diff" =>
     let l1 := ((jArrField? o "l1").getD []).filterMap jStr?
-    let exposed := l1.any fun s => s.trimRight.endsWith "\\"
+    -- the recorded finding: some physical line of the source, of an include file or of the Jinja2 output
+    -- hides a backslash behind trailing whitespace, and a processed line ends with a backslash
+    let trigger := c.files.any (fun f => (physLines f.2).any hidesBackslash) ||
+      c.jinja.any (fun e => match e.2 with | some out => out.any hidesBackslash | none => false)
+    let exposed := trigger && l1.any fun s => s.endsWith "\\"
     let directive := (match l1 with
       | f :: _ => f.startsWith "#!jinja2" || f.startsWith "#!Jinja2"
       | [] => false) || l1.any fun s =>
@@ -97,7 +114,7 @@ def judge (o : Json) : Bool × String :=
 
 def handle (i o : Json) : Except String Reply := do
   let c ← parseCase i
-  let (h, why) := judge o
+  let (h, why) := judge c o
   return { model := modelOut c, holds := h, why := why }
 
 end CylcModel.DrvC36
